@@ -80,6 +80,9 @@ def phase_a(payload):
                 job = obj.__xpm__.job
                 if j["mode"] == "run":
                     job.wait()
+                    # C10 defect #6 (not this property's): <name>.pid survives a successful run; a later submit
+                    # then waits for whatever process has that pid by now.  Emulate the repaired behaviour.
+                    job.pidpath.unlink(missing_ok=True)
                 jobs.append(job)
         res = []
         for ix, (j, job) in enumerate(zip(case["jobs"], jobs)):
